@@ -68,6 +68,7 @@ def main():
     t0 = time.time()
     ok = True
     K.build_generator()
+    K.build_gendrv()
     ok &= selftest_cnf()
     print("[setup] done in %.1fs: %s" % (time.time() - t0, "OK" if ok else "FAILED"))
     return 0 if ok else 1
